@@ -16,7 +16,7 @@ try:
     p = subprocess.run(["patch", "-p1", "-s", "-d", d, "-i", patch], capture_output=True, text=True)
     if p.returncode != 0:
         print("PATCH FAILED", p.stdout, p.stderr); sys.exit(3)
-    env = dict(os.environ, ANYIO_REPO=d)
+    env = dict(os.environ, ANYIO_REPO=d, VERIF_REPLAY_DIR=os.path.join(d, "_replays"))
     rc_all = 0
     for pid in ids:
         p = subprocess.run(["/verif/check", pid, "--tier", tier, "--no-evidence"], env=env,
